@@ -105,6 +105,12 @@ def programs(draw, max_ops: int = 4, allow_xr: bool = True, ops_pool: list[str] 
     nd = draw(st.integers(1, 3))
     dims = ["x", "y", "z"][:nd]
     sizes = [draw(st.sampled_from([1, 2, 3, 3, 4, 4])) for _ in dims]
+    if draw(st.integers(0, 5)) == 0:
+        # one long dimension: nodes with more than ten inputs (input10 sorts before input2 as a string)
+        sizes[draw(st.integers(0, nd - 1))] = draw(st.sampled_from([11, 12]))
+        for j in range(nd):
+            if sizes[j] < 11:
+                sizes[j] = min(sizes[j], 2)
     coords = []
     for s in sizes:
         start = draw(st.integers(-2, 5))
